@@ -50,6 +50,7 @@ pub fn check(rep: &mut Rep, w: &World, c: i128, s: TimeScale, others: bool) {
     }
     rep.nt(h64(&[c as u64, (c >> 64) as u64, scale_idx(s)]));
     let want_txt = format!("{} {}", iso_display(&f), scale_name(s));
+    rep.log_event("fields", || format!("\"c\":\"{}\",\"scale\":\"{:?}\",\"want\":\"{}\"", c, s, want_txt));
     rep.sample("epoch", || format!("reading {} in {:?} => {:?}", c, s, want_txt));
     let det = || format!("Epoch({}, {:?})", c, s);
     match guard(|| {
